@@ -598,7 +598,7 @@ def unit_lean(filename):
 def units(tier):
     import os
     from .. import VERIF
-    lean = [("unit_lean", (f,)) for f in ("Phi.lean", "Phi2.lean", "Phi3.lean") if tier == "thorough" and os.path.exists(os.path.join(VERIF, "lemmas", f))]
+    lean = [("unit_lean", (f,)) for f in ("Phi.lean", "Phi2.lean", "Phi3.lean", "Phi4.lean") if tier == "thorough" and os.path.exists(os.path.join(VERIF, "lemmas", f))]
     return lean + [("unit_tab", ()), ("unit_v", ()), ("unit_w", ()), ("unit_vt", ()), ("unit_wt", ()), ("unit_contract_v_vt", ()),
                    ("unit_emode", ("phi_major",)), ("unit_emode", ("phi_minor",)),
                    ("unit_emode_vw", ("v",)), ("unit_emode_vw", ("w",)), ("unit_mills_recheck", ())] + \
@@ -616,7 +616,7 @@ def main(tier, seed):
         assumptions=[
             "A-Phi: 0 < Phi < 1, Phi monotone (instances), reflection, phi > 0, phi even - machine-checked against Mathlib in lemmas/Phi.lean (thorough tier) for Phi := cdf of the standard Gaussian measure; that libm's erfc/2 is this Phi is A-erf (the definition of erfc) and stays assumed",
             "A-tab: rational enclosures of Phi / erf at a few fixed points (e.g. Phi(-8.13) < 2^-52 < Phi(-8.12)), numerically re-checked against a 50-digit reference on every run",
-            "A-Mills: V > 0, V(y) + y > 0, V(-y) <= y + 1/y, 0 < W < 1 (Sampford), V' = -W and A-cond-mean (-t-x <= V~ <= t-x, V~ odd) are machine-checked against Mathlib in lemmas/Phi2.lean, and -V(-x-t) <= V~(x,t) <= V(x-t), 0 < W~ <= 1 in lemmas/Phi3.lean (thorough tier); listed for reference, of which only the sharper instance V(y) >= z + (z^3+7z)/(z^4+9z^2+8) is still assumed real analysis: V > 0, V(y) + y > 0, V(y) <= -y - 1/y and V(y) >= z + (z^3+7z)/(z^4+9z^2+8) (z = -y) for y < 0, 0 < W < 1, -V(-x-t) <= V~(x,t) <= V(x-t), 0 < W~ <= 1; A-cond-mean: -t-x <= V~(x,t) <= t-x (V~ is the mean of a standard normal conditioned on [-t-x, t-x])",
+            "A-Mills: V > 0, V(y) + y > 0, V(-y) <= y + 1/y, 0 < W < 1 (Sampford), V' = -W and A-cond-mean (-t-x <= V~ <= t-x, V~ odd) are machine-checked against Mathlib in lemmas/Phi2.lean, and -V(-x-t) <= V~(x,t) <= V(x-t), 0 < W~ <= 1 in lemmas/Phi3.lean (thorough tier); and the sharper instance V(y) >= z + (z^3+7z)/(z^4+9z^2+8) (z = -y > 0) with 0 < 1 - W(-z) <= 2/z^2 in lemmas/Phi4.lean; listed for reference (all of it machine-checked for the mathematical Phi; what stays assumed is A-tab, the libm accuracy model and the condition-number bounds): V > 0, V(y) + y > 0, V(y) <= -y - 1/y and V(y) >= z + (z^3+7z)/(z^4+9z^2+8) (z = -y) for y < 0, 0 < W < 1, -V(-x-t) <= V~(x,t) <= V(x-t), 0 < W~ <= 1; A-cond-mean: -t-x <= V~(x,t) <= t-x (V~ is the mean of a standard normal conditioned on [-t-x, t-x])",
             "E-mode: first-order relative-error model with u = 2^-53; A-libm: erf/erfc/exp within 4u of the mathematical function, sqrt correctly rounded; assumed condition-number bounds kappa_erf <= 1, kappa_erfc(a) <= 2a^2+2a+1 (a > 0), <= 1 (a <= 0); x in [-37.5, 38]",
             "accuracy of v, w on the exact branch (E-mode): contracts of phi_major / phi_minor (relative error <= 1e-12, the two obligations above) + assumed condition numbers kappa_Phi(y) <= y^2 + 1, kappa_phi(y) = y^2 + A-Mills instances 1/(2 - y) <= V(y) + y and V(y) <= -y + 4/5 for y <= 0 (numerically re-checked on a grid each run); domain x >= -1000 and y = x - t <= 37.5 (above it phi(y) is subnormal or zero and no double is within 1e-6 relative of V)",
             "NOT DECIDED: 'wt within 20t + 1e-13/t of W~' on its asymptotic sub-path; the range of wt on the sub-path where its inner vt calls take the 1e-5 asymptote (its returned form is pinned, its range is numerical)",
